@@ -674,7 +674,7 @@ def op_name(kind, op):
     if kind == "ndict" and op[0] == "Inner":
         return "Inner/" + c05.op_shape(op[2])
     if kind == "deep" and op[0] == "Path":
-        return "Path%d/%s" % (len(op[1]), op[2][1][0])
+        return "Path/%s" % (op[2][1][0],)
     if kind == "default":
         return "Read"
     return op[0]
